@@ -298,7 +298,7 @@ prop("C08", [
      "args": {"quick": ["--d1=5", "--d2=4", "--timeout-ms=120000", "--deadline-s=170"],
               "thorough": ["--d1=7", "--d2=6", "--faults=0", "--timeout-ms=600000", "--deadline-s=2400"]}},
     {"name": "c08_faults", "sources": ["c08_lifecycle.cc"], "c_sources": ["common/netgate.c"], "flavour": "asan",
-     "args": {"thorough": ["--d1=6", "--d2=0", "--faults=1", "--timeout-ms=600000", "--deadline-s=1200"]}},
+     "args": {"thorough": ["--d1=7", "--d2=0", "--faults=1", "--tick=1000", "--timeout-ms=600000", "--deadline-s=1500"]}},
 ],
     rule="one case = a block of 16 client-event histories; history alphabet per connection: connect, send first half "
          "of a request, send the rest, send a whole request, read, close, shutdown(WR), abortive close (RST), plus "
@@ -312,3 +312,42 @@ prop("C08", [
                                  "kernel to make a loop ready; a late kernel effect would show as harness nondeterminism, "
                                  "not as a verdict"],
     bounds={"quick": "depth 5 (1 connection), 4 (2 connections)", "thorough": "depth 7 / 6, and depth 6 with write faults"})
+
+prop("C14", [
+    {"name": "c14_limits", "sources": ["c14_limits.cc"], "c_sources": ["common/netgate.c"], "flavour": "asan",
+     "args": {"quick": ["--timeout-ms=170000", "--deadline-s=170"],
+              "thorough": ["--thorough=1", "--timeout-ms=1200000", "--deadline-s=1800"]}},
+],
+    rule="size: one case = (limit 64/200, total size limit-1 / limit / limit+1, header-only or Content-Length body); "
+         "the request is delivered in every split into <=2 reads (and every split into 3 reads for limit 64; thorough: "
+         "also for 200), each on a fresh connection to a real Http::Endpoint; over the limit => handler never runs and "
+         "413, within => served and never 413. time: one case = (header,body) time-out pair x stall point (after "
+         "connect, inside request line, inside headers, after headers, inside body) x stall {T-500, T, T+500, T+1000 ms} "
+         "x scan phase {0,250 ms} under virtual time in 250 ms ticks; stall <= T => 200 and never a 408 at or before "
+         "T; stall >= T+500 ms => 408, handler not run, connection closed; executions = connections served; "
+         "non-trivial = multi-read deliveries and all time cases",
+    assumptions=COMMON_ASSUME + ["time is virtual (clock_gettime / timerfd interposed); the 500 ms idle scan of the "
+                                 "endpoint is driven by the virtual clock", "timing of the first request on a connection "
+                                 "only (the statement's 'start of that request' is the connection's start there)"],
+    bounds={"quick": "as listed (3-read splits for limit 64 only)", "thorough": "3-read splits for both limits"})
+
+prop("C09", [
+    {"name": "c09_mt", "sources": ["c09_mt.cc"], "c_sources": ["common/netgate.c"], "flavour": "asan",
+     "args": {"quick": ["--timeout-ms=170000", "--deadline-s=170"],
+              "thorough": ["--thorough=1", "--timeout-ms=2400000", "--deadline-s=2400"]}},
+    {"name": "c09_mt_tsan", "sources": ["c09_mt.cc"], "c_sources": ["common/netgate.c"], "flavour": "tsan",
+     "args": {"quick": ["--timeout-ms=170000", "--deadline-s=170", "--last=6"],
+              "thorough": ["--thorough=1", "--timeout-ms=2400000", "--deadline-s=1800"]}},
+],
+    rule="one case = a scenario (w workers sharing one Rest::Router, c keep-alive clients x r tagged requests mixing "
+         "GET/POST/PUT routes and a DELETE that hits no method table, deviation bound D): DFS over all orders of "
+         "{acceptor step, worker_i step, client_j next action} with <= D deviations from the default 'run the loops "
+         "dry, then the next client acts' on a real Http::Endpoint whose threads are gated at epoll_wait; scenarios "
+         "marked shutdown additionally issue shutdown() before every point of every explored schedule and require all "
+         "framework threads to terminate; oracle: each request exactly one response with its own tag/method/body, 405 "
+         "with the exact Allow set, no busy-wait; TSan build (raw-futex gate) must report no data race; states = nodes "
+         "of the schedule tree; transitions = event-loop steps granted",
+    assumptions=COMMON_ASSUME + ["interleaving granularity = one epoll_wait batch per thread (finer-grained races inside a "
+                                 "batch are left to the TSan pass, which sees no happens-before from the gate)"],
+    bounds={"quick": "w<=3, c<=3, r<=2, D<=1; shutdown at every prefix of the default schedules",
+            "thorough": "D<=2, shutdown at every prefix of the 1-deviation schedules"})
